@@ -5,6 +5,7 @@
 #include <stdlib.h>
 #include <string.h>
 #include <float.h>
+#include <math.h>
 #include <errno.h>
 
 #include "convert.h"
@@ -232,7 +233,7 @@ extern MPT_INTERFACE(metatype) *_mpt_iterator_range(MPT_STRUCT(value) *val)
 {
 	MPT_STRUCT(iteratorLinear) *data;
 	MPT_STRUCT(range) r = { 0.0, 1.0 };
-	double step = 0.1;
+	double step = 0.1, step_count;
 	int iv = 10;
 	
 	if (val) {
@@ -286,7 +287,12 @@ extern MPT_INTERFACE(metatype) *_mpt_iterator_range(MPT_STRUCT(value) *val)
 			errno = ERANGE;
 			return 0;
 		}
-		iv = (r.max - r.min) / step;
+		/* bounds and step are rounded (decimal) values: accept a quotient
+		 * just below the integral number of steps, error of the difference
+		 * is proportional to the magnitude of the bounds */
+		step_count = (r.max - r.min) / step;
+		step_count += step_count * 2 * DBL_EPSILON * (1 + (fabs(r.max) + fabs(r.min)) / (r.max - r.min));
+		iv = step_count;
 	}
 	if (!(data = malloc(sizeof(*data)))) {
 		return 0;
